@@ -72,6 +72,8 @@ type Unit struct {
 	hparents        map[string][]string
 	qsorts          map[string]string
 	readLog         map[string]string
+	noInv           bool
+	skipInv         map[string]bool
 	insertOnlyAddrs []*Val
 	frameMode       bool
 	monitorHook     func(fr *Frame, name string, st *State, args []*Val, pos token.Pos)
@@ -952,7 +954,13 @@ func (fr *Frame) assumeCellInv(a *Val, st *State) {
 }
 
 func (u *Unit) assumeInv(fr *Frame, invs []*TypeInv, v *Val, st *State, guard string) {
+	if u.noInv {
+		return
+	}
 	for _, ti := range invs {
+		if u.skipInv[ti.TypeName] {
+			continue
+		}
 		func() {
 			defer func() {
 				if r := recover(); r != nil {
@@ -985,6 +993,9 @@ func (u *Unit) invsFor(t types.Type) []*TypeInv {
 
 // nonnilElem: values of this type read from pre-existing containers are declared non-nil
 func (u *Unit) nonnilElem(t types.Type) bool {
+	if u.noInv {
+		return false
+	}
 	for k := range u.eng.contracts.nonnil {
 		parts := strings.SplitN(k, "::", 2)
 		pkg := u.eng.pkgByName(parts[0])
